@@ -4,9 +4,9 @@ CONSTANTS
   Tags = {0, 1}
   Ints <- MCIntsFull
   Strs <- MCStrsFull
-  FInts = {0, 1, 2}
-  FStrs <- MCFStrs
-  FBoth <- MCFBoth
+  FInts = {1, 2}
+  FStrs <- MCFStrsSmall
+  FBoth <- MCFBothSmall
   Res <- MCRes
   ReSet <- MCReSet
   Kinds = {"plain", "raw"}
